@@ -222,7 +222,13 @@ func (c *Check) signalFrameRemoval() {
 		return
 	}
 	n := 0
-	for _, b := range f.Blocks {
+	var blocks []*ssa.BasicBlock
+	for _, g := range withHelpers(f, 2) {
+		if g == f || g.Parent() != nil || !strings.HasPrefix(g.Name(), "parse") && g.Name() != "cleanupDuplicateLocations" && g.Name() != "ParseMemoryMap" {
+			blocks = append(blocks, g.Blocks...)
+		}
+	}
+	for _, b := range blocks {
 		for _, ins := range b.Instrs {
 			st, ok := ins.(*ssa.Store)
 			if !ok {
